@@ -45,6 +45,21 @@ fn c06_rodbus_crc_constant() {
     kani::cover!(d[0] == 0x2A, "reached");
 }
 
+// =============================================================================================
+// ATTEMPTED AND INTRACTABLE (unregistered: `props: ZZ`, run by neither tier)
+//
+// The receive side - `RtuParser::parse` accepts iff length rule and CRC hold - could NOT be decided.
+// Measured on this machine (30 GB cap, <= 3 concurrent queries):
+//   * streams <= 10 bytes, symbolic buffer offset ............ solver died after ~175 s
+//   * streams <= 8 / <= 5 bytes, symbolic offset .............. solver died after 175 s / 230 s
+//   * streams <= 8 / <= 5 bytes, CONCRETE offset 0 ............ out of memory / solver died after 238 s
+//   * 8-byte frame split at every k (c06_rtu_split) ........... CBMC failed after 360 s (symex alone 198 s)
+// Shrinking the input did not change the outcome, so the cost is structural (recursive `parse`, `Frame::set`
+// memcpy of symbolic length into a 253-byte array, CRC digest over `frame.payload()`), not a matter of bounds.
+// Consequence, stated in MANIFEST/DESIGN: C06 is claimed for the CRC implementation and the TRANSMIT side only;
+// a change to the CRC comparison or the length derivation inside `RtuParser::parse` is NOT detected.
+// The harnesses are kept so that the attempt is reproducible: `./check --dev zz06_`.
+// =============================================================================================
 use crate::common::buffer::verif_buffer::{begin_of, buffer_with, invariant, CAP};
 
 #[derive(Clone, Copy, PartialEq)]
@@ -115,8 +130,11 @@ fn rtu_parse_kernel<const N: usize>(request: bool) {
     let s: [u8; N] = kani::any();
     let len: usize = kani::any();
     kani::assume(len <= N);
-    let begin: usize = kani::any();
-    kani::assume(begin <= CAP && len <= CAP - begin);
+    // the stream sits at offset 0 of a buffer whose remaining 260-N bytes are arbitrary residue. A SYMBOLIC offset
+    // here turns every byte the CRC consumes into a 260-way array read (measured: even 5-byte streams died in the
+    // solver). Offset-independence of the accessors the parser uses (read, read_u8, peek_at, read_u16_le) is
+    // decided for every begin/end by c05_buffer_accessors.
+    let begin: usize = 0;
     let level = any_decode_level();
     let mut buf = buffer_with(&s, len, begin);
     let mut p = if request { RtuParser::new_request_parser() } else { RtuParser::new_response_parser() };
@@ -134,7 +152,7 @@ fn rtu_parse_kernel<const N: usize>(request: bool) {
             assert!(f.header.tx_id.is_none());
             assert!(f.payload().len() == n - 3, "[C06] frame length derived from function code and byte count");
             let k: usize = kani::any();
-            kani::assume(k < n - 3 && 1 + k < N);
+            kani::assume(k < n - 3 && k < N - 1);
             assert!(f.payload()[k] == s[1 + k], "[C06] PDU bytes");
             assert!(begin_of(&buf) - begin == n, "[C06] exactly one frame is consumed");
             assert!(matches!(p.state, ParseState::Start), "[C06] parser ready for the next frame");
@@ -144,35 +162,36 @@ fn rtu_parse_kernel<const N: usize>(request: bool) {
         (Err(_), _) => assert!(false, "[C06] a valid frame was rejected"),
     }
     kani::cover!(matches!(want, RefRtu::Frame(_)) && s[0] == 0, "broadcast frame accepted");
-    kani::cover!(matches!(want, RefRtu::Frame(n) if n > 8), "variable-length frame accepted");
+    kani::cover!(matches!(want, RefRtu::Frame(_)) && s[0] != 0, "unicast frame accepted");
     kani::cover!(matches!(want, RefRtu::BadCrc(_)), "CRC mismatch");
-    kani::cover!(want == RefRtu::NeedMore && len >= 7, "waiting for the byte count / trailer");
+    kani::cover!(want == RefRtu::NeedMore && len >= 3, "waiting for the rest of the frame");
+    kani::cover!(want == RefRtu::UnknownFunction, "unknown function code");
 }
 
-//@ props: C06 C07 C17 C20
+//@ props: ZZ
 //@ peer: yes
 //@ timeout: 1500
 //@ fns: serial::frame::RtuParser::parse (all three states), RtuParser::length_mode, common::buffer::ReadBuffer::peek_at / read / read_u16_le, crc::Crc<u16>::digest / update / finalize, common::frame::Frame::set
-//@ bounds: request direction, every stream of 0..=10 bytes at EVERY buffer offset: the six fixed-length requests (8-byte frames) and write-multiple with <= 1 data byte; all decode levels; unwind 12
-//@ outside: longer variable-length frames (thorough: 13 bytes); serial driver
+//@ bounds: request direction, every stream of 0..=8 bytes at buffer offset 0 (offset-independence: c05_buffer_accessors): the six fixed-length requests complete (8-byte frames), every truncation of them, unknown function codes, and the need-more prefix of write-multiple; all decode levels; unwind 10
+//@ outside: complete variable-length (write-multiple) frames - 10-byte streams died in the solver; thorough tier tries 13; serial driver
 #[kani::proof]
-#[kani::unwind(12)]
-fn c06_rtu_parse_request_q() {
-    rtu_parse_kernel::<10>(true);
+#[kani::unwind(10)]
+fn zz06_rtu_parse_request() {
+    rtu_parse_kernel::<8>(true);
 }
 
-//@ props: C06 C07 C20
+//@ props: ZZ
 //@ peer: yes
 //@ timeout: 1500
 //@ fns: serial::frame::RtuParser::parse, RtuParser::length_mode (response direction, exception replies)
-//@ bounds: response direction, every stream of 0..=8 bytes at every buffer offset: exception replies (5 bytes), read replies with <= 3 data bytes, write echoes; unwind 10
+//@ bounds: response direction, every stream of 0..=5 bytes at buffer offset 0: exception replies complete (5 bytes), every shorter prefix of read replies and write echoes (need-more), unknown function codes; unwind 8
 #[kani::proof]
-#[kani::unwind(10)]
-fn c06_rtu_parse_response_q() {
-    rtu_parse_kernel::<8>(false);
+#[kani::unwind(8)]
+fn zz06_rtu_parse_response() {
+    rtu_parse_kernel::<5>(false);
 }
 
-//@ props: C06 C07
+//@ props: ZZ
 //@ peer: yes
 //@ tier: thorough
 //@ timeout: 3600
@@ -180,24 +199,23 @@ fn c06_rtu_parse_response_q() {
 //@ bounds: request direction, streams of 0..=13 bytes (write-multiple with up to 4 data bytes); unwind 15
 #[kani::proof]
 #[kani::unwind(15)]
-fn c06_rtu_parse_request_t() {
+fn zz06_rtu_parse_request_13() {
     rtu_parse_kernel::<13>(true);
 }
 
-//@ props: C06
+//@ props: ZZ
 //@ peer: yes
 //@ timeout: 1500
 //@ fns: serial::frame::RtuParser::parse (resumption across calls), ReadBuffer::peek_at
-//@ bounds: an 8-byte request frame delivered in two parts at every split point k in 0..=8, every buffer offset
+//@ bounds: an 8-byte request frame delivered in two parts at every split point k in 0..=8, buffer offset 0
 /// the length of a frame is derived identically for every chunking: parsing k bytes, then all 8, gives the
 /// result of parsing all 8 at once
 #[kani::proof]
 #[kani::unwind(12)]
-fn c06_rtu_split_q() {
+fn zz06_rtu_split() {
     let s: [u8; 8] = kani::any();
     kani::assume(s[1] >= 1 && s[1] <= 6);
-    let begin: usize = kani::any();
-    kani::assume(begin <= CAP - 8);
+    let begin: usize = 0; // see rtu_parse_kernel: a symbolic offset under the CRC is intractable
     let k: usize = kani::any();
     kani::assume(k <= 8);
     let mut p = RtuParser::new_request_parser();
@@ -260,7 +278,7 @@ fn c06_crc_detection_lemma() {
     kani::cover!(d == 2065, "all distances visited");
 }
 
-//@ props: C06
+//@ props: ZZ
 //@ peer: yes
 //@ tier: thorough
 //@ timeout: 3600
@@ -269,7 +287,7 @@ fn c06_crc_detection_lemma() {
 /// any corruption the CRC detects causes no accepted frame: decided on the REAL parser, not on the polynomial
 #[kani::proof]
 #[kani::unwind(12)]
-fn c06_corruption_rejected_t() {
+fn zz06_corruption_rejected() {
     let mut s: [u8; 8] = kani::any();
     kani::assume(s[1] >= 1 && s[1] <= 6);
     let mut crc = 0xFFFFu16;
